@@ -163,7 +163,7 @@ def _sinks(ctx):
         kw = {k.arg: k.value for k in c.keywords}
         ok = len(c.args) == 1 and set(kw) <= {"renderFactory"}
         ctx.check(ok, "recursion/no-escaper-override", ctx.construct(q, c), "a recursive flattening step overrides the escaper / writer of its context")
-    ctx.floor("recursion/no-escaper-override", len(kg), 8)
+    ctx.floor("recursion/no-escaper-override", len(kg), 7)
 
 
 def _recursion(ctx):
